@@ -27,7 +27,7 @@ def sh(cmd, cwd=None, env=None, timeout=1800):
 
 
 def worktree(name):
-    d = '/tmp/sv/' + name
+    d = '/tmp/sv/%s-%d' % (name, os.getpid())
     if os.path.exists(d):
         sh(['git', '-C', '/repo', 'worktree', 'remove', '--force', d])
         shutil.rmtree(d, ignore_errors=True)
@@ -84,7 +84,11 @@ def run(sid, checks, tier='quick'):
     try:
         rc, out = sh(['git', '-C', d, 'apply', os.path.join(SEEDED, sid, 'patch.diff')])
         if rc:
-            raise RuntimeError('patch does not apply: ' + out)
+            # the seed was made against an earlier /repo HEAD (before later fix: commits): merge it
+            rc, out2 = sh(['git', '-C', d, 'apply', '--3way', os.path.join(SEEDED, sid, 'patch.diff')])
+            if rc or 'conflict' in out2.lower():
+                print('%s: patch does not apply to the current tree (%s)' % (sid, (out + out2).strip().splitlines()[-1][:120]))
+                return {}
         for c in checks:
             t0 = time.time()
             rc, out = sh([os.path.join(ROOT, 'check'), c, '--tier', tier, '--repo', d], cwd=ROOT, timeout=3600)
